@@ -50,4 +50,8 @@ def main(argv=None) -> int:
 
 
 if __name__ == "__main__":
-    sys.exit(main())
+    rc = main()
+    sys.stdout.flush()
+    sys.stderr.flush()
+    # skip interpreter teardown: half-consumed parsers of a broken tree under test can crash there
+    os._exit(rc)
